@@ -1,38 +1,51 @@
-"""Facts for C08 (connection lifecycle), regenerated from the current tree on every run:
+"""Facts for C08 (connection lifecycle), regenerated from the current tree on every run.
 
-* decision tables obtained by *running* the real callbacks of RSTransport / USTransport on a
-  stub asyncio transport: `connection_lost` (send gate opened, framer failed with
-  ConnectionLostError), `is_closing` for the 4 flag combinations, `close(force_after)` and
-  `abort()` in six scenarios on the virtual loop (already closed / graceful close completes after
-  0, 3, 9 s with force_after 7 / never completes / no transport), `process_messages` (sets
-  `_closed_event` whatever `session.process_messages` does), `SessionBase._process_messages`
-  (hook runs once whatever the loop does), `cancel_pending_requests`;
-* AST facts: where `_closed_event.set()` and the hook sit, which exception the receive task
-  swallows, that `RPCSession.connection_lost` cancels the pending requests, that `close()`
-  bounds its wait with `timeout_after(force_after)` and aborts on TaskTimeout, that
-  `process_messages` runs inside `async with self._group`, that `_send_concurrent` bounds the wait
-  for the response with `sent_request_timeout`;
-* constants: default `force_after`, `sent_request_timeout`;
-* fingerprints of every modelled function.
+Everything here is obtained by RUNNING the real code through its public interfaces on stubs
+(nothing is read from the shape of the source, no private attribute is touched):
+
+* the transport protocols RSTransport / USTransport, created with their public constructor
+  `(session_factory, framer, kind)` and driven through the asyncio.Protocol callbacks
+  (`connection_made`, `connection_lost`, `pause_writing`) and their session-facing API (`write`,
+  `close(force_after)`, `abort()`, `is_closing()`), with a stub asyncio transport, a stub framer
+  and a stub session:
+  - `connection_lost`: fails the framer with ConnectionLostError (which ends message processing)
+    and releases a writer blocked on a full send buffer;
+  - `is_closing()` for message processing ended or not x asyncio transport closing or not;
+  - `close(force_after)` on the virtual loop in eight scenarios (already closed / graceful close
+    completes after 0, 3, 9 s with force_after 7 / never completes with force_after 7 and 1 /
+    never completes and the caller is cancelled after 3 s / before connection_made);
+  - message processing ending in four ways (return, ConnectionLostError, another exception,
+    cancellation): is the transport "closed" afterwards, what comes out of the task, is the
+    asyncio transport aborted;
+* the sessions RPCSession / MessageSession on a stub transport: `process_messages(recv)` with a
+  `recv` that fails / the task cancelled -> how often the public `connection_lost` hook runs;
+  `RPCSession.connection_lost()` cancels the pending request futures; `send_request` without an
+  answer ends with TaskTimeout at `sent_request_timeout` (also when that attribute is changed);
+  how many of 60 simultaneous `send_request` calls are written at once (the outgoing limit);
+  `close()` hands `force_after` (default value observed) to `transport.close`;
+* `JSONRPCConnection.cancel_pending_requests` on answered / pending / cancelled / batch futures;
+* constants (public class attributes): `sent_request_timeout`, `processing_timeout`;
+* fingerprints of every modelled function (a drift only deepens the exploration).
 """
-import ast
 import asyncio
-import inspect
 import logging
 
 from . import common
 
 
 class _Stub:
-    """asyncio transport stand-in for the table runs"""
-    def __init__(self, loop, closing=False, graceful_after=None, abort_after=2, proto=None):
+    """asyncio transport stand-in.  A graceful close completes (connection_lost is delivered)
+    `graceful_after` seconds after close() - None = never -, an abort `abort_after` seconds after
+    abort() (0 = in the next loop iteration, as asyncio does)."""
+    def __init__(self, loop, closing=False, graceful_after=None, abort_after=2):
         self.loop = loop
         self.closing = closing
         self.graceful_after = graceful_after
         self.abort_after = abort_after
-        self.proto = proto
+        self.proto = None
         self.calls = []
-        self._armed = False
+        self._handle = None
+        self._delivered = False
 
     def is_closing(self):
         return self.closing
@@ -40,10 +53,20 @@ class _Stub:
     def get_extra_info(self, *a, **k):
         return None
 
-    def _finish(self, delay):
-        if not self._armed:
-            self._armed = True
-            self.loop.call_later(delay, self.proto._closed_event.set)
+    def _lost(self):
+        if not self._delivered:
+            self._delivered = True
+            self.calls.append(('connection_lost', int(self.loop.time())))
+            self.proto.connection_lost(None)
+
+    def _finish(self, delay, force=False):
+        if self.proto is None or self._delivered:
+            return
+        if self._handle is not None:
+            if not force:
+                return
+            self._handle.cancel()
+        self._handle = self.loop.call_later(delay, self._lost)
 
     def close(self):
         self.calls.append(('close', int(self.loop.time())))
@@ -54,7 +77,7 @@ class _Stub:
     def abort(self):
         self.calls.append(('abort', int(self.loop.time())))
         self.closing = True
-        self._finish(self.abort_after)
+        self._finish(self.abort_after, force=True)
 
     def write(self, data):
         self.calls.append(('write', int(self.loop.time())))
@@ -67,11 +90,15 @@ class _Stub:
 
 
 class _Framer:
-    def __init__(self):
+    """framer stand-in: receive_message blocks until fail(exc) is called, then raises exc"""
+    def __init__(self, loop):
         self.failed = None
+        self._fut = loop.create_future()
 
     def fail(self, exc):
         self.failed = type(exc).__name__
+        if not self._fut.done():
+            self._fut.set_exception(exc)
 
     def frame(self, m):
         return m
@@ -80,7 +107,36 @@ class _Framer:
         pass
 
     async def receive_message(self):
-        await asyncio.get_event_loop().create_future()
+        return await asyncio.shield(self._fut)
+
+
+class _Session:
+    """session stand-in as seen by the transport: reads messages until that fails, then takes
+    `linger` more seconds to end (as handlers reacting to their cancellation would); `how` makes
+    message processing end in another way"""
+    def __init__(self, loop, how='read', linger=0):
+        self.loop = loop
+        self.how = how
+        self.linger = linger
+        self.go = loop.create_future()
+
+    def default_framer(self):
+        return _Framer(self.loop)
+
+    def data_received(self, data):
+        pass
+
+    async def process_messages(self, recv):
+        if self.how == 'read':
+            try:
+                while True:
+                    await recv()
+            finally:
+                if self.linger:
+                    await asyncio.sleep(self.linger)
+        await self.go                      # how in (return, other, cancel): wait for the signal
+        if self.how == 'other':
+            raise KeyError('x')
 
 
 def _with_loop(fn):
@@ -90,80 +146,130 @@ def _with_loop(fn):
     try:
         return fn(loop)
     finally:
+        try:
+            for t in asyncio.all_tasks(loop):
+                t.cancel()
+            loop.run_until_complete(asyncio.sleep(0))
+        except BaseException:      # noqa
+            pass
         asyncio.set_event_loop(None)
         loop.close()
 
 
+def _make(mod, clsname, kind, loop, stub, how='read', linger=0):
+    sess = _Session(loop, how, linger)
+    framer = _Framer(loop)
+    proto = getattr(mod, clsname)(lambda transport: sess, framer, kind)
+    stub.proto = proto
+    proto.connection_made(stub)
+    return proto, sess, framer
+
+
 def lost_table(mod, clsname, kind):
-    def go(loop):
-        rows = []
-        for closing in (False, True):
-            for can_send in (False, True):
-                proto = getattr(mod, clsname)(lambda t: None, _Framer(), kind)
-                proto._asyncio_transport = _Stub(loop, closing, proto=proto)
-                if can_send:
-                    proto._can_send.set()
-                else:
-                    proto._can_send.clear()
+    """connection_lost(None) with the send buffer full or not: is the framer failed with
+    ConnectionLostError, is a blocked writer released"""
+    rows = []
+    for paused in (False, True):
+        def go(loop, paused=paused):
+            stub = _Stub(loop)
+            proto, _sess, framer = _make(mod, clsname, kind, loop, stub)
+            out = {}
+
+            async def main():
+                if paused:
+                    proto.pause_writing()
+                w = loop.create_task(proto.write(b'm'))
+                await asyncio.sleep(1)
+                out['blocked_before'] = not w.done()
                 proto.connection_lost(None)
-                rows.append({'closing': closing, 'can_send': can_send,
-                             'can_send_after': proto._can_send.is_set(),
-                             'framer_failed': proto._framer.failed,
-                             'closed_event_after': proto._closed_event.is_set()})
-        return rows
-    return _with_loop(go)
+                await asyncio.sleep(1)
+                out['released'] = w.done()
+                if not w.done():
+                    w.cancel()
+            loop.run_until_complete(main())
+            return {'paused': paused, 'blocked_before': out['blocked_before'],
+                    'framer_failed': framer.failed, 'writer_released': out['released']}
+        rows.append(_with_loop(go))
+    return rows
 
 
 def closing_table(mod, clsname, kind):
-    def go(loop):
-        rows = []
-        for closed in (False, True):
-            for tclosing in (False, True):
-                proto = getattr(mod, clsname)(lambda t: None, _Framer(), kind)
-                proto._asyncio_transport = _Stub(loop, tclosing, proto=proto)
-                if closed:
-                    proto._closed_event.set()
-                rows.append({'closed_event': closed, 'transport_closing': tclosing,
-                             'result': bool(proto.is_closing())})
-        return rows
-    return _with_loop(go)
+    """is_closing() for (message processing ended, asyncio transport closing)"""
+    rows = []
+    for closed in (False, True):
+        for tclosing in (False, True):
+            def go(loop, closed=closed, tclosing=tclosing):
+                stub = _Stub(loop)
+                proto, sess, _framer = _make(mod, clsname, kind, loop, stub, how='return')
+
+                async def main():
+                    if closed:
+                        sess.go.set_result(None)
+                    await asyncio.sleep(1)
+                    # (the repaired transport aborts a transport whose message processing ended
+                    # without a loss; this table is about is_closing() alone)
+                    stub.closing = tclosing
+                    return bool(proto.is_closing())
+                return {'closed': closed, 'transport_closing': tclosing,
+                        'result': loop.run_until_complete(main())}
+            rows.append(_with_loop(go))
+    return rows
 
 
 CLOSE_SCENARIOS = [
-    # (already closed, graceful close completes after .. s (None = never), force_after)
-    (True, None, 7), (False, 0, 7), (False, 3, 7), (False, 9, 7), (False, None, 7), (False, None, 1),
+    # (already closed, graceful close completes after .. s (None = never), force_after,
+    #  the caller is cancelled after .. s (None = not))
+    (True, None, 7, None), (False, 0, 7, None), (False, 3, 7, None), (False, 9, 7, None),
+    (False, None, 7, None), (False, None, 1, None), (False, None, 7, 3),
 ]
 
 
 def close_table(mod, clsname, kind):
     """run the real close(force_after) on the virtual loop"""
     rows = []
-    for already, graceful, fa in CLOSE_SCENARIOS:
-        def go(loop, already=already, graceful=graceful, fa=fa):
-            proto = getattr(mod, clsname)(lambda t: None, _Framer(), kind)
-            stub = _Stub(loop, closing=already, graceful_after=graceful, abort_after=2, proto=proto)
-            proto._asyncio_transport = stub
-            if already:
-                proto._closed_event.set()
+    for already, graceful, fa, cancel_at in CLOSE_SCENARIOS:
+        def go(loop, already=already, graceful=graceful, fa=fa, cancel_at=cancel_at):
+            stub = _Stub(loop, graceful_after=graceful, abort_after=0)
+            proto, _sess, _framer = _make(mod, clsname, kind, loop, stub, linger=2)
             out = {}
 
             async def main():
+                if already:
+                    stub.closing = True
+                    proto.connection_lost(None)
+                    await asyncio.sleep(5)
+                mark = len(stub.calls)
+                t0 = out['t0'] = int(loop.time())
                 t = loop.create_task(proto.close(fa))
+                if cancel_at is not None:
+                    loop.call_later(cancel_at, t.cancel)
                 try:
                     await asyncio.wait_for(asyncio.shield(t), 500)
-                    out['returned_at'] = int(loop.time())
+                    out['returned_at'] = int(loop.time()) - t0
                     out['raised'] = None
                 except asyncio.TimeoutError:
                     out['returned_at'] = None
                     out['raised'] = None
                     t.cancel()
+                except asyncio.CancelledError:
+                    out['returned_at'] = None
+                    out['raised'] = 'CancelledError'
                 except Exception as e:     # noqa
                     out['returned_at'] = None
                     out['raised'] = type(e).__name__
+                await asyncio.sleep(30)
+                out['calls'] = stub.calls[mark:]
             loop.run_until_complete(main())
+            first_abort = None
+            for c, when in out['calls']:
+                if c == 'connection_lost':
+                    break
+                if c == 'abort':
+                    first_abort = when - out['t0']
+                    break
             return {'already': already, 'graceful': graceful, 'force_after': fa,
-                    'aborts': [t for c, t in stub.calls if c == 'abort'],
-                    'closes': len([1 for c, _ in stub.calls if c == 'close']),
+                    'cancel_at': cancel_at, 'first_abort': first_abort,
+                    'closes': len([1 for c, _ in out['calls'] if c == 'close']),
                     'returned_at': out['returned_at'], 'raised': out['raised']}
         rows.append(_with_loop(go))
     return rows
@@ -172,7 +278,7 @@ def close_table(mod, clsname, kind):
 def no_transport(mod, clsname, kind):
     """close()/abort() before connection_made: nothing to do, must simply return"""
     def go(loop):
-        proto = getattr(mod, clsname)(lambda t: None, _Framer(), kind)
+        proto = getattr(mod, clsname)(lambda t: _Session(loop), _Framer(loop), kind)
         res = []
         for name, args in (('close', (7,)), ('abort', ())):
             async def main(name=name, args=args):
@@ -186,81 +292,196 @@ def no_transport(mod, clsname, kind):
     return _with_loop(go)
 
 
-def process_messages_table(mod, clsname, kind, cle_name='ConnectionLostError'):
-    """RSTransport.process_messages with a stub session whose process_messages returns / raises
-    ConnectionLostError / raises another exception / is cancelled: is `_closed_event` set, and
-    what comes out of the task?"""
+def process_messages_table(mod, clsname, kind):
+    """message processing (the task started by connection_made) ends because the session's
+    process_messages returns / raises ConnectionLostError (the connection is lost) / raises
+    another exception / is cancelled: is the transport closed afterwards (is_closing() with an
+    asyncio transport that is not closing), how does the task end, was the asyncio transport
+    aborted"""
     rows = []
     for how in ('return', 'cle', 'other', 'cancel'):
         def go(loop, how=how):
-            proto = getattr(mod, clsname)(lambda t: None, _Framer(), kind)
-            cle = getattr(mod, cle_name)
-
-            class Sess:
-                async def process_messages(self, recv):
-                    if how == 'return':
-                        return
-                    if how == 'cle':
-                        raise cle()
-                    if how == 'other':
-                        raise KeyError('x')
-                    await loop.create_future()
-            proto.session = Sess()
+            stub = _Stub(loop, abort_after=1000)
+            before = set(asyncio.all_tasks(loop))
+            proto, sess, _framer = _make(mod, clsname, kind, loop, stub,
+                                         how='read' if how == 'cle' else how)
 
             async def main():
-                t = loop.create_task(proto.process_messages())
-                await asyncio.sleep(0)
-                if how == 'cancel':
-                    t.cancel()
-                try:
-                    await t
-                    return 'returned'
-                except asyncio.CancelledError:
-                    return 'cancelled'
-                except Exception as e:     # noqa
-                    return type(e).__name__
-            out = loop.run_until_complete(main())
-            return {'how': how, 'closed_event': proto._closed_event.is_set(), 'outcome': out}
+                tasks = [t for t in asyncio.all_tasks(loop)
+                         if t not in before and t is not asyncio.current_task()]
+                await asyncio.sleep(1)
+                if how == 'cle':
+                    proto.connection_lost(None)
+                elif how == 'cancel':
+                    for t in tasks:
+                        t.cancel()
+                else:
+                    sess.go.set_result(None)
+                await asyncio.sleep(1)
+                outcome = 'pending'
+                for t in tasks:
+                    if t.done():
+                        if t.cancelled():
+                            outcome = 'cancelled'
+                        elif t.exception() is not None:
+                            outcome = type(t.exception()).__name__
+                        else:
+                            outcome = 'returned'
+                aborted = any(c == 'abort' for c, _ in stub.calls)
+                stub.closing = False
+                return {'how': how, 'closed': bool(proto.is_closing()), 'outcome': outcome,
+                        'aborted': aborted}
+            return loop.run_until_complete(main())
         rows.append(_with_loop(go))
     return rows
+
+
+class _T:
+    """transport stand-in as seen by a session"""
+    def __init__(self, kind):
+        self.kind = kind
+        self.calls = []
+        self.written = 0
+
+    async def write(self, message):
+        self.written += 1
+
+    async def close(self, force_after):
+        self.calls.append(('close', force_after))
+
+    async def abort(self):
+        self.calls.append(('abort',))
+
+    def is_closing(self):
+        return False
+
+    def proxy(self):
+        return None
+
+    def remote_address(self):
+        return None
+
+
+class _Fail(Exception):
+    pass
 
 
 def hook_table(sess):
-    """SessionBase._process_messages with a loop that returns / raises / is cancelled: how often
-    does the connection_lost hook run?"""
+    """`process_messages(recv)` of the real sessions with a `recv` that raises at once (as the
+    transports' does after a loss) / raises something else / never returns and the task is
+    cancelled: how often does the `connection_lost` hook run?"""
     rows = []
-    for how in ('return', 'raise', 'cancel'):
-        def go(loop, how=how):
-            calls = []
+    for clsname in ('RPCSession', 'MessageSession'):
+        for how in ('fail', 'other', 'cancel'):
+            def go(loop, how=how, clsname=clsname):
+                calls = []
 
-            class T:
-                kind = sess.SessionKind.SERVER
+                class Sess(getattr(sess, clsname)):
+                    async def connection_lost(self):
+                        calls.append(1)
+                        await super().connection_lost()
+                s = Sess(_T(sess.SessionKind.SERVER))
 
-            class S(sess.SessionBase):
-                async def connection_lost(self):
-                    calls.append(1)
-
-                async def _process_messages_loop(self, recv):
-                    if how == 'return':
-                        return
-                    if how == 'raise':
+                async def recv():
+                    if how == 'fail':
+                        raise _Fail()
+                    if how == 'other':
                         raise KeyError('x')
                     await loop.create_future()
-            s = S(T())
+
+                async def main():
+                    t = loop.create_task(s.process_messages(recv))
+                    await asyncio.sleep(1)
+                    if how == 'cancel':
+                        t.cancel()
+                    try:
+                        await asyncio.wait_for(t, 100)
+                    except BaseException:     # noqa
+                        pass
+                loop.run_until_complete(main())
+                return {'session': clsname, 'how': how, 'hook_runs': len(calls)}
+            rows.append(_with_loop(go))
+    return rows
+
+
+def rpc_hook_table(sess):
+    """RPCSession.connection_lost(): what happens to request futures that are answered / pending
+    / already cancelled"""
+    def go(loop):
+        s = sess.RPCSession(_T(sess.SessionKind.SERVER))
+        jr = common.fresh_import(_REPO[0], 'aiorpcx.jsonrpc')
+        futs = []
+        for i in range(3):
+            _m, f = s.connection.send_request(jr.Request('m', [i]))
+            futs.append(f)
+        futs[0].set_result(1)
+        futs[2].cancel()
+
+        async def main():
+            await s.connection_lost()
+        loop.run_until_complete(main())
+        return ['pending' if not f.done() else 'cancelled' if f.cancelled() else 'result'
+                for f in futs]
+    return _with_loop(go)
+
+
+def request_timeout_table(sess):
+    """send_request that is never answered: outcome and instant, with the class default
+    sent_request_timeout and with the attribute set to 7"""
+    rows = []
+    for override in (None, 7):
+        def go(loop, override=override):
+            class Sess(sess.RPCSession):
+                pass
+            if override is not None:
+                Sess.sent_request_timeout = override
+            s = Sess(_T(sess.SessionKind.SERVER))
 
             async def main():
-                t = loop.create_task(s._process_messages(None))
-                await asyncio.sleep(0)
-                if how == 'cancel':
-                    t.cancel()
                 try:
-                    await t
-                except BaseException:     # noqa
-                    pass
-            loop.run_until_complete(main())
-            return {'how': how, 'hook_runs': len(calls)}
+                    await asyncio.wait_for(s.send_request('m'), 10000)
+                    return 'returned'
+                except asyncio.TimeoutError:
+                    return 'never'
+                except Exception as e:     # noqa
+                    return type(e).__name__
+            out = loop.run_until_complete(main())
+            return {'override': override, 'outcome': out, 'at_ms': int(round(loop.time() * 1000))}
         rows.append(_with_loop(go))
     return rows
+
+
+def outgoing_limit(sess):
+    """how many of 60 simultaneous send_request calls are written before any is answered"""
+    def go(loop):
+        tr = _T(sess.SessionKind.SERVER)
+        s = sess.RPCSession(tr)
+
+        async def main():
+            ts = [loop.create_task(s.send_request('m', [i])) for i in range(60)]
+            await asyncio.sleep(1)
+            n = tr.written
+            for t in ts:
+                t.cancel()
+            await asyncio.sleep(0)
+            return n
+        return loop.run_until_complete(main())
+    return _with_loop(go)
+
+
+def session_close_table(sess):
+    """SessionBase.close(): what reaches transport.close with force_after=5 and by default"""
+    def go(loop):
+        tr = _T(sess.SessionKind.SERVER)
+        s = sess.RPCSession(tr)
+
+        async def main():
+            await s.close(force_after=5)
+            await s.close()
+            await s.abort()
+        loop.run_until_complete(main())
+        return tr.calls
+    return _with_loop(go)
 
 
 def cancel_table(jr):
@@ -276,7 +497,6 @@ def cancel_table(jr):
         futs.append(fb)
         futs[0].set_result(1)
         futs[2].cancel()
-        before = [('done' if f.done() else 'pending') for f in futs]
         conn.cancel_pending_requests()
         after = []
         for f in futs:
@@ -286,161 +506,24 @@ def cancel_table(jr):
                 after.append('cancelled')
             else:
                 after.append('result')
-        return {'before': before, 'after': after, 'left': len(conn.pending_requests())}
+        return {'after': after, 'left': len(conn.pending_requests())}
     return _with_loop(go)
 
 
-# ------------------------------------------------------------------------------- AST facts
-def _calls(node):
-    out = []
-    for n in ast.walk(node):
-        if isinstance(n, ast.Call):
-            out.append(ast.unparse(n.func))
-    return out
-
-
-def _handler_names(h):
-    if h.type is None:
-        return ['*']
-    if isinstance(h.type, ast.Tuple):
-        return [ast.unparse(e) for e in h.type.elts]
-    return [ast.unparse(h.type)]
-
-
-def closed_event_attr(tree, cls):
-    """the attribute whose .set() sits in the `finally` of process_messages (`_closed_event`)"""
-    node = common.find(tree, f'{cls}.process_messages')
-    if node is not None:
-        for n in ast.walk(node):
-            if isinstance(n, ast.Try):
-                for s in n.finalbody:
-                    for c in _calls(s):
-                        if c.startswith('self.') and c.endswith('.set') and c.count('.') == 2:
-                            return c[:-len('.set')]
-    return 'self.<none>'
-
-
-def process_messages_shape(tree, cls):
-    node = common.find(tree, f'{cls}.process_messages')
-    out = {'finally_sets_closed': False, 'catches': [], 'awaits_session': False}
-    if node is None:
-        return out
-    ev = closed_event_attr(tree, cls)
-    for n in ast.walk(node):
-        if isinstance(n, ast.Try):
-            if any(c == ev + '.set' for s in n.finalbody for c in _calls(s)):
-                out['finally_sets_closed'] = True
-            for h in n.handlers:
-                out['catches'] += _handler_names(h)
-            if any(c == 'self.session.process_messages' for s in n.body for c in _calls(s)):
-                out['awaits_session'] = True
-    out['catches'] = sorted(set(out['catches']))
-    return out
-
-
-def close_shape(tree, cls):
-    """close(): transport.close() first; the wait for _closed_event inside `async with
-    timeout_after(force_after)` inside a try whose `except TaskTimeout` aborts and waits again"""
-    node = common.find(tree, f'{cls}.close')
-    out = {'closes_transport': False, 'bounded_wait': False, 'timeout_arg': None,
-           'on_timeout_aborts': False, 'on_timeout_waits_again': False, 'catches': []}
-    if node is None:
-        return out
-    ev = closed_event_attr(tree, cls)
-    params = [a.arg for a in node.args.args]
-    out['param'] = params[1] if len(params) > 1 else None
-    out['closes_transport'] = 'self._asyncio_transport.close' in _calls(node)
-    for n in ast.walk(node):
-        if isinstance(n, ast.Try):
-            for b in n.body:
-                for w in ast.walk(b):
-                    if isinstance(w, ast.AsyncWith):
-                        for item in w.items:
-                            ce = item.context_expr
-                            if isinstance(ce, ast.Call) and ast.unparse(ce.func) == 'timeout_after':
-                                if any(c == ev + '.wait' for s in w.body for c in _calls(s)):
-                                    out['bounded_wait'] = True
-                                    arg = ast.unparse(ce.args[0]) if ce.args else None
-                                    out['timeout_arg'] = 'force_after' if arg == out['param'] else arg
-            for h in n.handlers:
-                out['catches'] += _handler_names(h)
-                cs = [c for s in h.body for c in _calls(s)]
-                if 'self.abort' in cs or 'self._asyncio_transport.abort' in cs:
-                    out['on_timeout_aborts'] = True
-                if ev + '.wait' in cs:
-                    out['on_timeout_waits_again'] = True
-    out['catches'] = sorted(set(out['catches']))
-    return out
-
-
-def hook_shape(tree):
-    node = common.find(tree, 'SessionBase._process_messages')
-    out = {'hook_in_finally': False, 'loop_in_try': False}
-    if node is not None:
-        for n in ast.walk(node):
-            if isinstance(n, ast.Try):
-                if any(c == 'self.connection_lost' for s in n.finalbody for c in _calls(s)):
-                    out['hook_in_finally'] = True
-                if any(c == 'self._process_messages_loop' for s in n.body for c in _calls(s)):
-                    out['loop_in_try'] = True
-    return out
-
-
-def group_shape(tree):
-    node = common.find(tree, 'SessionBase.process_messages')
-    out = {'in_group_context': False, 'spawns_loop_in_group': False}
-    if node is not None:
-        for n in ast.walk(node):
-            if isinstance(n, ast.AsyncWith):
-                if any(ast.unparse(i.context_expr) == 'self._group' for i in n.items):
-                    out['in_group_context'] = True
-                    for w in ast.walk(n):
-                        if isinstance(w, ast.Call) and ast.unparse(w.func).endswith('.spawn') \
-                                and w.args and ast.unparse(w.args[0]) == 'self._process_messages':
-                            out['spawns_loop_in_group'] = True
-    return out
-
-
-def spawn_sites(tree, qual):
-    """do the handler tasks go into self._group?"""
-    node = common.find(tree, qual)
-    if node is None:
-        return []
-    return sorted(set(c for c in _calls(node) if c.endswith('.spawn')))
-
-
-def send_concurrent_shape(tree):
-    node = common.find(tree, 'RPCSession._send_concurrent')
-    out = {'bounded': False, 'arg': None}
-    if node is not None:
-        params = [a.arg for a in node.args.args]
-        fut = params[2] if len(params) > 2 else 'future'
-        for n in ast.walk(node):
-            if isinstance(n, ast.AsyncWith):
-                for item in n.items:
-                    ce = item.context_expr
-                    if isinstance(ce, ast.Call) and ast.unparse(ce.func) == 'timeout_after':
-                        if any(isinstance(w, ast.Await) and ast.unparse(w.value) == fut
-                               for s in n.body for w in ast.walk(s)):
-                            out['bounded'] = True
-                            out['arg'] = ast.unparse(ce.args[0]) if ce.args else None
-    return out
+_REPO = [None]
 
 
 def extract(repo):
     logging.disable(logging.CRITICAL)
+    _REPO[0] = repo
     try:
         rs = common.fresh_import(repo, 'aiorpcx.rawsocket')
         us = common.fresh_import(repo, 'aiorpcx.unixsocket')
         sess = common.fresh_import(repo, 'aiorpcx.session')
         jr = common.fresh_import(repo, 'aiorpcx.jsonrpc')
         kind = sess.SessionKind.SERVER
-        t_rs = common.parse(repo, 'aiorpcx/rawsocket.py')
-        t_us = common.parse(repo, 'aiorpcx/unixsocket.py')
-        t_se = common.parse(repo, 'aiorpcx/session.py')
-        hook_node = common.find(t_se, 'RPCSession.connection_lost')
-        sig = inspect.signature(sess.SessionBase.close)
-        fa = sig.parameters['force_after'].default if 'force_after' in sig.parameters else None
+        sc = session_close_table(sess)
+        closes = [c[1] for c in sc if c[0] == 'close']
         facts = {
             'lost_rs': lost_table(rs, 'RSTransport', kind),
             'lost_us': lost_table(us, 'USTransport', kind),
@@ -453,22 +536,14 @@ def extract(repo):
             'pm_rs': process_messages_table(rs, 'RSTransport', kind),
             'pm_us': process_messages_table(us, 'USTransport', kind),
             'hook_table': hook_table(sess),
+            'rpc_hook': rpc_hook_table(sess),
             'cancel_table': cancel_table(jr),
-            'pm_shape_rs': process_messages_shape(t_rs, 'RSTransport'),
-            'pm_shape_us': process_messages_shape(t_us, 'USTransport'),
-            'close_shape_rs': close_shape(t_rs, 'RSTransport'),
-            'close_shape_us': close_shape(t_us, 'USTransport'),
-            'hook_shape': hook_shape(t_se),
-            'group_shape': group_shape(t_se),
-            'rpc_spawns': spawn_sites(t_se, 'RPCSession._process_messages_loop'),
-            'msg_spawns': spawn_sites(t_se, 'MessageSession._process_messages_loop'),
-            'rpc_hook_cancels_pending': hook_node is not None and
-            'self.connection.cancel_pending_requests' in _calls(hook_node),
-            'send_concurrent': send_concurrent_shape(t_se),
-            'default_force_after': fa,
-            'session_close_passes_force_after': 'self.transport.close' in _calls(
-                common.find(t_se, 'SessionBase.close') or ast.Module(body=[], type_ignores=[])),
+            'request_timeout': request_timeout_table(sess),
+            'outgoing_limit': outgoing_limit(sess),
+            'session_close': [list(c) for c in sc],
+            'default_force_after': closes[1] if len(closes) > 1 else None,
             'sent_request_timeout': float(sess.RPCSession.sent_request_timeout),
+            'processing_timeout': float(sess.SessionBase.processing_timeout),
         }
     finally:
         logging.disable(logging.NOTSET)
@@ -517,103 +592,95 @@ def _nats(xs):
     return '[' + ', '.join(str(int(x)) for x in xs) + ']'
 
 
+def _strs(xs):
+    return '[' + ', '.join(f'"{x}"' for x in xs) + ']'
+
+
 def _lost_rows(tab):
-    return '[\n  ' + ',\n  '.join(
-        f'⟨{_b(r["closing"])}, {_b(r["can_send"])}, {_b(r["can_send_after"])}, '
-        f'{_b(r["framer_failed"] == "ConnectionLostError")}, {_b(r["closed_event_after"])}⟩'
+    return '[' + ', '.join(
+        f'⟨{_b(r["paused"])}, {_b(r["blocked_before"])}, '
+        f'{_b(r["framer_failed"] == "ConnectionLostError")}, {_b(r["writer_released"])}⟩'
         for r in tab) + ']'
 
 
 def _closing_rows(tab):
     return '[' + ', '.join(
-        f'⟨{_b(r["closed_event"])}, {_b(r["transport_closing"])}, {_b(r["result"])}⟩' for r in tab) + ']'
+        f'⟨{_b(r["closed"])}, {_b(r["transport_closing"])}, {_b(r["result"])}⟩' for r in tab) + ']'
 
 
 def _close_rows(tab):
     return '[\n  ' + ',\n  '.join(
-        f'⟨{_b(r["already"])}, {_opt(r["graceful"])}, {r["force_after"]}, {r["closes"]}, '
-        f'{_nats(r["aborts"])}, {_opt(r["returned_at"])}, {_b(r["raised"] is None)}⟩'
+        f'⟨{_b(r["already"])}, {_opt(r["graceful"])}, {r["force_after"]}, {_opt(r["cancel_at"])}, '
+        f'{r["closes"]}, {_opt(r["first_abort"])}, {_opt(r["returned_at"])}, '
+        f'"{r["raised"] or ""}"⟩'
         for r in tab) + ']'
 
 
 def _pm_rows(tab):
     return '[' + ', '.join(
-        f'⟨"{r["how"]}", {_b(r["closed_event"])}, "{r["outcome"]}"⟩' for r in tab) + ']'
+        f'⟨"{r["how"]}", {_b(r["closed"])}, "{r["outcome"]}", {_b(r["aborted"])}⟩' for r in tab) + ']'
 
 
-def _strs(xs):
-    return '[' + ', '.join(f'"{x}"' for x in xs) + ']'
+def _ms(x):
+    return max(0, int(round(float(x) * 1000)))
 
 
 def render(f):
-    ps, pu = f['pm_shape_rs'], f['pm_shape_us']
-    cs, cu = f['close_shape_rs'], f['close_shape_us']
     fa = f['default_force_after']
+    sc = f['session_close']
     return (
-        '/-! GENERATED by tools/facts/c08.py from /repo on every run - do not edit. -/\n'
+        '/-! GENERATED by tools/facts/c08.py by running the code of /repo on every check - do not edit. -/\n'
         'namespace Aiorpcx.Facts.C08\n'
-        '/-- `connection_lost(None)` run on a stub: (transport closing, `_can_send` before,\n'
-        '    `_can_send` after, framer failed with ConnectionLostError, `_closed_event` set by it) -/\n'
-        'structure LostRow where\n  closing : Bool\n  canSend : Bool\n  canSendAfter : Bool\n'
-        '  framerFailedCLE : Bool\n  closedEventAfter : Bool\n  deriving DecidableEq, Repr\n'
+        '/-- `connection_lost(None)` with the send buffer full or not: (paused, a writer was blocked\n'
+        '    before, the framer was failed with ConnectionLostError, the writer is released) -/\n'
+        'structure LostRow where\n  paused : Bool\n  blockedBefore : Bool\n  framerFailedCLE : Bool\n'
+        '  writerReleased : Bool\n  deriving DecidableEq, Repr\n'
         f'def lostRS : List LostRow := {_lost_rows(f["lost_rs"])}\n'
         f'def lostUS : List LostRow := {_lost_rows(f["lost_us"])}\n'
-        '/-- `is_closing()` for (`_closed_event` set, asyncio transport closing) -/\n'
+        '/-- `is_closing()` for (message processing ended, asyncio transport closing) -/\n'
         'structure ClosingRow where\n  closedEvent : Bool\n  transportClosing : Bool\n  result : Bool\n'
         '  deriving DecidableEq, Repr\n'
         f'def isClosingRS : List ClosingRow := {_closing_rows(f["closing_rs"])}\n'
         f'def isClosingUS : List ClosingRow := {_closing_rows(f["closing_us"])}\n'
         '/-- the real `close(force_after)` run on the virtual loop against a stub transport whose\n'
-        '    graceful close completes (`_closed_event` set) `graceful` seconds after `close()` -\n'
-        '    `none` = never - and 2 s after `abort()`: number of transport.close() calls, instants\n'
-        '    of transport.abort(), instant close() returned, and that it did not raise -/\n'
+        '    graceful close completes (connection_lost delivered) `graceful` seconds after `close()`\n'
+        '    - `none` = never -, at once after `abort()`, and whose message processing takes 2 s to\n'
+        '    end after the loss; `cancelAt`: the caller is cancelled after that many seconds.  Number of transport.close() calls, instant of the first\n'
+        '    transport.abort() before connection_lost, instant close() returned, what it raised -/\n'
         'structure CloseRow where\n  already : Bool\n  graceful : Option Nat\n  forceAfter : Nat\n'
-        '  closes : Nat\n  aborts : List Nat\n  returnedAt : Option Nat\n  noRaise : Bool\n'
-        '  deriving DecidableEq, Repr\n'
+        '  cancelAt : Option Nat\n  closes : Nat\n  firstAbort : Option Nat\n  returnedAt : Option Nat\n'
+        '  raised : String\n  deriving DecidableEq, Repr\n'
         f'def closeRS : List CloseRow := {_close_rows(f["close_rs"])}\n'
         f'def closeUS : List CloseRow := {_close_rows(f["close_us"])}\n'
         '/-- close() / abort() before connection_made return normally -/\n'
         f'def noTransportRS : List Bool := [{", ".join(_b(x) for x in f["no_transport_rs"])}]\n'
         f'def noTransportUS : List Bool := [{", ".join(_b(x) for x in f["no_transport_us"])}]\n'
-        '/-- `process_messages()` run with a session whose process_messages returns / raises\n'
-        '    ConnectionLostError / raises KeyError / is cancelled: (`_closed_event` set, outcome) -/\n'
-        'structure PmRow where\n  how : String\n  closedEvent : Bool\n  outcome : String\n'
+        '/-- message processing ends because the session\'s process_messages returns / raises\n'
+        '    ConnectionLostError / raises KeyError / is cancelled: (closed afterwards, outcome of\n'
+        '    the task, asyncio transport aborted) -/\n'
+        'structure PmRow where\n  how : String\n  closed : Bool\n  outcome : String\n  aborted : Bool\n'
         '  deriving DecidableEq, Repr\n'
         f'def pmRS : List PmRow := {_pm_rows(f["pm_rs"])}\n'
         f'def pmUS : List PmRow := {_pm_rows(f["pm_us"])}\n'
-        '/-- `SessionBase._process_messages` with a loop that returns / raises / is cancelled:\n'
-        '    number of connection_lost hook runs -/\n'
+        '/-- `process_messages(recv)` of RPCSession (first three) and MessageSession with a recv that\n'
+        '    fails / raises KeyError / the task cancelled: number of connection_lost hook runs -/\n'
         f'def hookRuns : List Nat := {_nats(r["hook_runs"] for r in f["hook_table"])}\n'
+        '/-- `RPCSession.connection_lost()` on request futures [answered, pending, already cancelled] -/\n'
+        f'def rpcHookAfter : List String := {_strs(f["rpc_hook"])}\n'
         '/-- `cancel_pending_requests` on [answered, pending, already cancelled, pending batch] -/\n'
         f'def cancelAfter : List String := {_strs(f["cancel_table"]["after"])}\n'
         f'def cancelLeft : Nat := {f["cancel_table"]["left"]}\n'
-        '/-- AST: `process_messages` has `finally: self._closed_event.set()`, awaits\n'
-        '    `self.session.process_messages` in the try, and catches exactly these -/\n'
-        f'def pmFinallySetsClosedRS : Bool := {_b(ps["finally_sets_closed"] and ps["awaits_session"])}\n'
-        f'def pmFinallySetsClosedUS : Bool := {_b(pu["finally_sets_closed"] and pu["awaits_session"])}\n'
-        f'def pmCatchesRS : List String := {_strs(ps["catches"])}\n'
-        f'def pmCatchesUS : List String := {_strs(pu["catches"])}\n'
-        '/-- the `_closed_event` flags of the four `process_messages` runs -/\n'
-        f'def pmClosedRS : List Bool := [{", ".join(_b(r["closed_event"]) for r in f["pm_rs"])}]\n'
-        f'def pmClosedUS : List Bool := [{", ".join(_b(r["closed_event"]) for r in f["pm_us"])}]\n'
-        '/-- AST: close() = transport.close(); try: async with timeout_after(force_after): await\n'
-        '    _closed_event.wait(); except TaskTimeout: abort; await _closed_event.wait() -/\n'
-        f'def closeShapeRS : Bool := {_b(cs["closes_transport"] and cs["bounded_wait"] and cs["timeout_arg"] == "force_after" and cs["on_timeout_aborts"] and cs["on_timeout_waits_again"] and cs["catches"] == ["TaskTimeout"])}\n'
-        f'def closeShapeUS : Bool := {_b(cu["closes_transport"] and cu["bounded_wait"] and cu["timeout_arg"] == "force_after" and cu["on_timeout_aborts"] and cu["on_timeout_waits_again"] and cu["catches"] == ["TaskTimeout"])}\n'
-        '/-- AST: `_process_messages` = try: loop; finally: await self.connection_lost() -/\n'
-        f'def hookInFinally : Bool := {_b(f["hook_shape"]["hook_in_finally"] and f["hook_shape"]["loop_in_try"])}\n'
-        '/-- AST: `process_messages` spawns `_process_messages` inside `async with self._group` -/\n'
-        f'def loopInGroup : Bool := {_b(f["group_shape"]["in_group_context"] and f["group_shape"]["spawns_loop_in_group"])}\n'
-        '/-- AST: both message loops spawn their handlers into `self._group` only -/\n'
-        f'def handlersInGroup : Bool := {_b(f["rpc_spawns"] == ["self._group.spawn"] and f["msg_spawns"] == ["self._group.spawn"])}\n'
-        '/-- AST: `RPCSession.connection_lost` calls `self.connection.cancel_pending_requests()` -/\n'
-        f'def rpcHookCancelsPending : Bool := {_b(f["rpc_hook_cancels_pending"])}\n'
-        '/-- AST: `_send_concurrent` awaits the future inside `timeout_after(self.sent_request_timeout)` -/\n'
-        f'def requestWaitBounded : Bool := {_b(f["send_concurrent"]["bounded"] and f["send_concurrent"]["arg"] == "self.sent_request_timeout")}\n'
-        '/-- `SessionBase.close(*, force_after=..)` default (0 if absent / not a number), and that it\n'
-        '    hands over to `transport.close` -/\n'
+        '/-- an unanswered `send_request`: outcome and instant (ms), with the default\n'
+        '    sent_request_timeout and with the attribute set to 7 -/\n'
+        f'def requestOutcome : List String := {_strs(r["outcome"] for r in f["request_timeout"])}\n'
+        f'def requestTimedOutAtMs : List Nat := {_nats(r["at_ms"] for r in f["request_timeout"])}\n'
+        '/-- how many of 60 simultaneous `send_request` calls are written at once -/\n'
+        f'def outgoingLimit : Nat := {int(f["outgoing_limit"])}\n'
+        '/-- `session.close(force_after=5)`, `session.close()`, `session.abort()` as they reach the\n'
+        '    transport; the default force_after (0 if not a number) -/\n'
+        f'def sessionCloseCalls : List String := {_strs(" ".join(str(x) for x in c) for c in sc)}\n'
         f'def defaultForceAfter : Nat := {int(fa) if isinstance(fa, (int, float)) and fa >= 0 else 0}\n'
-        f'def sessionCloseDelegates : Bool := {_b(f["session_close_passes_force_after"])}\n'
-        '/-- `RPCSession.sent_request_timeout`, in milliseconds -/\n'
-        f'def sentRequestTimeoutMs : Nat := {max(0, int(round(f["sent_request_timeout"] * 1000)))}\n'
+        '/-- `RPCSession.sent_request_timeout`, `SessionBase.processing_timeout`, in milliseconds -/\n'
+        f'def sentRequestTimeoutMs : Nat := {_ms(f["sent_request_timeout"])}\n'
+        f'def processingTimeoutMs : Nat := {_ms(f["processing_timeout"])}\n'
         'end Aiorpcx.Facts.C08\n')
